@@ -20,4 +20,15 @@ PROPS = {
         "required_roots": ["wav/pcm_16/file", "aiff/pcm_24/file", "caf/alac_16/file", "raw/dwvw_16/file", "xi/dpcm_16/file", "au/double/file"],
         "assumptions": COMMON_ASSUME + ["lossless type table per encoding is the hand-written traits table engine/fmt.c (from the property statement), not asked of the library"],
     },
+    "C04": {
+        "harness": "h_rt", "level": "exploration",
+        "technique": "bounded exhaustive enumeration of (format, channels, N, sample rate, open-time frames, write split) on the real library; oracle from the container traits table",
+        "level_text": "every configuration in the stated alphabets is written, closed, re-opened and read to EOF with all four types on the real library under ASan; frame-count bound N<=F<N+B, rate representability and format identity come from the hand-written traits table, not from the library",
+        "level_note": "sample rates are a 38-value boundary alphabet, lengths the block/staging boundary alphabet, channels {1,2,5}; block length B per encoding is taken from the format specifications (engine/fmt.c)",
+        "rule": "catalogue format x ch{1,2,5} x N in boundary alphabet x 3 write splits (type rotating) ; x 38 boundary sample rates for N in {0,3} ; x open-time SF_INFO.frames in {777,-5,2^40} (bytes must equal the frames=0 run). non-trivial = every case (each writes, closes, re-opens and reads to EOF)",
+        "bounds": {"quick": "endian {file,le,be}, 5-channel only for endian=file", "thorough": "all endian options, extra lengths"},
+        "deadline": {"quick": 240, "thorough": 1800},
+        "required_roots": ["wav/pcm_16/file", "aiff/ima_adpcm/file", "voc/ulaw/file", "svx/pcm_16/file", "sds/pcm_16/file"],
+        "assumptions": COMMON_ASSUME + ["block length, pad rule and sample-rate representability per container are the independent traits table engine/fmt.c"],
+    },
 }
